@@ -256,6 +256,8 @@ func runBounds(p *Prog, c *Check, roots []*ssa.Function, opts *boundsOpts) bound
 	}
 	var st boundsStats
 	st.funcs = len(reach)
+	proverAssume = opts.assume
+	defer func() { proverAssume = nil }()
 	for _, fn := range reach {
 		c.Analysed(shortFn(fn))
 		for _, o := range obligationsOf(p, fn, opts) {
